@@ -47,8 +47,14 @@ def enumerate_output_edits(max2, max3, chk=None):
     return list(r.json_lines("OUTEDIT"))
 
 
+_ENUM_CACHE = {}
+
+
 def enumerate_edits(maxl, maxr, bases=ALL_BASES, chk=None, simulate=None, depth=None, seed=None):
-    """Run TLC on NotebookEdits; return list of abstract triples (dicts), deduplicated."""
+    """Run TLC on NotebookEdits; return list of abstract triples (dicts), deduplicated (memoised per process)."""
+    ck = (maxl, maxr, tuple(bases))
+    if simulate is None and ck in _ENUM_CACHE:
+        return copy.deepcopy(_ENUM_CACHE[ck]) if False else list(_ENUM_CACHE[ck])
     cfg = NE_CFG % (maxl, maxr, ",".join('"%s"' % b for b in bases))
     r = tlc.run("NotebookEdits", cfg, workers=1, timeout=1800, name="NotebookEdits-%d-%d" % (maxl, maxr),
                 simulate=simulate, depth=depth, seed=seed, xmx="8g", check=(simulate is None))
@@ -66,6 +72,9 @@ def enumerate_edits(maxl, maxr, bases=ALL_BASES, chk=None, simulate=None, depth=
         if isinstance(t.get("hist"), dict):
             t["hist"] = []
         out.append(t)
+    if simulate is None:
+        _ENUM_CACHE[ck] = out
+        return list(out)
     return out
 
 
